@@ -251,7 +251,7 @@ LATE = {
 def gen_cases(tier, seed):
     rng = random.Random(seed * 31 + 5)
     cases = []
-    names = QUICK_SCRIPTS if tier == "quick" else sorted(n for n in corpus() if n != "flood")
+    names = QUICK_SCRIPTS if tier == "quick" else sorted(n for n in corpus() if n not in ("flood", "noconnect_nowait"))
     for name in names:
         for action in ACTIONS:
             cases.append({"kind": "enum", "action": action, "plan": {"scripts": [name], "seed": seed}})
